@@ -22,7 +22,39 @@ def run(cmd, cwd=None, timeout=1200):
     except subprocess.TimeoutExpired as e:
         return 124, "TIMEOUT " + str(e), time.time() - t0
 
+def recheck(sid, prop):
+    """Re-run every check against an already confirmed seed (patch applied in a scratch worktree); updates checks_fired only."""
+    out = f"/verif/seeded/{sid}"
+    meta = json.load(open(os.path.join(out, "meta.json")))
+    scratch = f"/tmp/sc/{sid}"
+    os.makedirs("/tmp/sc", exist_ok=True)
+    run(["git", "-C", "/repo", "worktree", "remove", "--force", scratch])
+    rc, o, _ = run(["git", "-C", "/repo", "worktree", "add", "-q", "--detach", scratch, "HEAD"])
+    assert rc == 0, o
+    try:
+        rc, o, _ = run(["git", "apply", os.path.join(out, "patch.diff")], cwd=scratch)
+        assert rc == 0, o
+        fired = {}
+        for l in open("/verif/properties.jsonl"):
+            pid = json.loads(l)["id"]
+            if pid in ("C07", "C08"):
+                continue
+            rc, o, t = run(["/verif/bin/fpcheck", "-prop", pid, "-repo", scratch, "-verif", f"/tmp/sc/{sid}.verif"], timeout=600)
+            viol = [l for l in o.splitlines() if l.startswith("violation:")]
+            if rc != 0:
+                fired[pid] = {"exit": rc, "violations": [v[:400] for v in viol[:8]], "undecided": [l[:300] for l in o.splitlines() if l.startswith("UNDECIDED")][:4]}
+        meta["checks_fired"] = fired
+        meta["caught_by_own_property"] = prop in fired and fired[prop]["exit"] == 1
+        meta["base_commit"] = run(["git", "-C", "/repo", "rev-parse", "--short", "HEAD"])[1].strip()
+    finally:
+        run(["git", "-C", "/repo", "worktree", "remove", "--force", scratch])
+        shutil.rmtree(f"/tmp/sc/{sid}.verif", ignore_errors=True)
+    json.dump(meta, open(os.path.join(out, "meta.json"), "w"), indent=1)
+    print(sid, "RECHECKED", "caught" if meta.get("caught_by_own_property") else "MISSED", "fired:", sorted(fired))
+
 def main():
+    if sys.argv[1] == "--recheck":
+        return recheck(sys.argv[2], sys.argv[3])
     sid, prop = sys.argv[1], sys.argv[2]
     src = sys.argv[3] if len(sys.argv) > 3 else None
     out = f"/verif/seeded/{sid}"
